@@ -167,7 +167,7 @@ func VerifC09GC() {
 		}
 	}
 	for step := 0; step < k; step++ {
-		if verifrt.Bool() {
+		if verifrt.Param("gconly", 0) == 0 && verifrt.Bool() {
 			i := verifrt.Choice(K)
 			verifrt.Event(sprintf("Delete(node%d) autoGC=%v", i, s.AutoGC))
 			applyDelete(ctx, s, nodes, m, i)
